@@ -156,8 +156,9 @@ pub fn gen(seed: u64, n: usize, tier: &str) -> Vec<Case> {
             cases.push(Case { id: format!("bgsave-{}", v), ops, outs: vec![] });
         }
     }
-    // (2) saves racing with a writer on one key (violation search for the class value-ttl-tear)
-    {
+    // (2) saves racing with a writer on one key and one sorted set: regression soak for the repaired
+    // classes value-ttl-tear (880a648) and zset-len-tear (e63a0b6); thorough tier only
+    if thorough {
         let mut ops = vec![];
         small_dataset(&mut r, &mut ops, false);
         ops.push(opv("TEARSTRESS", vec![i(if thorough { 3000 } else { 400 })]));
@@ -207,10 +208,10 @@ pub fn judge(c: &Case, outs: &[Vec<Tok>]) -> Vec<String> {
             }
             b"TEARSTRESS" => {
                 if op.len() >= 5 && tok_int(&op[3]) > 0 {
-                    fails.push(format!("FAIL case={} op={} class=value-ttl-tear {} of {} snapshots taken while a client flipped the key between (old, no TTL) and (new, TTL) hold a (value, TTL) pair the key never had", c.id, k, tok_int(&op[3]), tok_int(&op[4])));
+                    fails.push(format!("FAIL case={} op={} {} of {} snapshots taken while a client flipped the key between (old, no TTL) and (new, TTL) hold a (value, TTL) pair the key never had", c.id, k, tok_int(&op[3]), tok_int(&op[4])));
                 }
                 if op.len() >= 6 && tok_int(&op[5]) > 0 {
-                    fails.push(format!("FAIL case={} op={} class=zset-len-tear {} snapshots taken while a client added/removed a sorted-set member do not load as written (member count written before the items are read)", c.id, k, tok_int(&op[5])));
+                    fails.push(format!("FAIL case={} op={} {} snapshots taken while a client added/removed a sorted-set member do not load as written (member count written before the items are read)", c.id, k, tok_int(&op[5])));
                 }
             }
             b"BGSWEEP" => {
